@@ -62,12 +62,14 @@ class PairRecorder:
         self._m.id_pairs_from_delta = self._orig
 
 
-def tol_rel(relation, p_ref, p_est):
+def tol_rel(relation, p_ref, p_est, defect=0.0):
     mag = 1.0 + float(np.max(np.abs(p_ref))) + float(np.max(np.abs(p_est)))
     if relation in ("rotation_part", "rotation_angle_rad"):
-        return 1e-9
+        return 1e-9 + 16 * defect
     if relation == "rotation_angle_deg":
-        return 1e-7
+        return 1e-7 + 16 * defect * 57.3
+    if relation in ("full_transformation", "translation_part"):
+        return 1e-9 * mag + 16 * defect * mag
     return 1e-9 * mag
 
 
@@ -94,7 +96,7 @@ def judge_values(run, case, relation, e, delta_ids, pairs, ref, est, factor, wha
         mag = 1.0 + float(np.max(np.abs(ref.p))) + float(np.max(np.abs(est.p)))
         tol = 1e-9 * 100.0 * mag / dr + 1e-9 * np.abs(want)
     else:
-        tol = tol_rel(relation, ref.p, est.p) * abs(factor)
+        tol = tol_rel(relation, ref.p, est.p, C01.rotation_defect(ref.R, est.R)) * abs(factor)
     dev = np.abs(np.asarray(e, dtype=float) - want * factor)
     run.note_max("max_deviation_over_tolerance", float(np.max(dev / tol)))
     return run.check(bool(np.all(dev <= tol)), what + ": value == definition on its pair", case,
